@@ -8,3 +8,9 @@ for _p in ("C01", "C02", "C03", "C04", "C05", "C06", "C07", "C08", "C10"):
 from harness import props_alg
 CHECKS["C17"] = props_alg.check_c17
 CHECKS["C13"] = props_alg.check_c13
+
+from harness import props_rel
+CHECKS["C09"] = props_rel.check_c09
+CHECKS["C14"] = props_rel.check_c14
+CHECKS["C15"] = props_rel.check_c15
+CHECKS["C16"] = props_rel.check_c16
